@@ -18,6 +18,7 @@ mod minmax;
 mod moments;
 mod pairs;
 mod par;
+mod posfmt;
 mod qlong;
 mod qref;
 mod quantile;
